@@ -19,7 +19,7 @@ PID = "C21"
 LEVEL = "proof"
 LEAN = ["SaVerif.Props.C21"]
 META = {
-    "text": "Lean theorems: a convention-generated name of any length renders with at most max characters when max >= 8, with max the dialect's index/constraint/identifier limit read from the working tree (truncated_len_le_max*, md5 uninterpreted with 32 output characters); for EVERY sequence of _truncated_identifier requests in one compilation, any label_length and any mix of names: results are at most label_length long while fewer than 16^5-1 names are truncated (label_len_le), two requests of the same class that received the same rendered name were requests for the same name (truncated_distinct), and a repeated request renders identically (memo_stable) — proved by an invariant over the memo/counter state machine. Model tied to the code by differential runs of real call sequences, and the property checked on compiled DDL (7 dialects + small limits) and on statements under a label_length sweep, executed on SQLite.",
+    "text": "Lean theorems: a convention-generated name of any length renders with at most max characters when max >= 8, with max the dialect's index/constraint/identifier limit read from the working tree (truncated_len_le_max*, md5 uninterpreted with 32 output characters); for EVERY sequence of _truncated_identifier requests in one compilation, any label_length and any mix of names: results are at most label_length long while fewer than 16^5-1 names are truncated (label_len_le), two requests of the same class that received the same rendered name were requests for the same name (truncated_distinct), and a repeated request renders identically (memo_stable) — proved by an invariant over the memo/counter state machine; over the engine's life (limits may shrink at initialize()) every label, index and constraint name emitted after a successful connect is bounded by the limits reported at that connect, whatever was formatted before (names_after_connect_respect_new_limit). Model tied to the code by differential runs of real call sequences, and the property checked on compiled DDL (7 dialects + small limits) and on statements under a label_length sweep, executed on SQLite.",
     "note": "Partial / known findings: explicitly given names are validated against max_identifier_length only, so on MySQL/MariaDB an explicit index or constraint name of 65..255 characters is rendered although the limit is 64 (explicit_exceeds_specific_max_counterexample); max < 8 breaks the bound (truncated_small_max_counterexample; no shipped dialect); a plain column literally named like a generated label (anon_1) shares the result-column name with the anonymous label (outside _truncated_identifier, hypothesis of truncated_distinct). Trusted / assumed: documented server limits for index/constraint names (PostgreSQL 63, MySQL/MariaDB 64, MSSQL 128, Oracle 128; dialect_limits_within_backend) and the documented meaning of the convention tokens (harness ref_expand); md5 gives 32 hex characters; collisions of the 4-hex-digit md5 suffix between different long DDL names are outside the theorems (probabilistic); apply_map / anon_map (anonymous counters) is outside the Lean model; ConventionDict is modelled for the documented tokens (no custom callables, no column_N_label).",
     "technique": "Lean 4 invariant proof over the truncation state machine (all request sequences), arithmetic lemmas for hex rendering; decide over regenerated dialect limits; differential correspondence; compile/execute oracle",
     "design_ref": "DESIGN.md §3 C21",
@@ -168,6 +168,155 @@ def gen_template(rng, kind):
         else:
             parts.append(rng.choice(["x", "long" * 5]))
     return "_".join(parts)
+
+
+# ------------------------------------------------------------------ engine lifecycle
+def shrinking_dialect(class_limit, server_limit, label_length=None, max_index=None, max_constraint=None, user_max=None):
+    """a real SQLite dialect whose identifier limit changes at first connect, the way Oracle's
+    does below 12.2 (`_check_max_identifier_length` returns the server's limit)"""
+    from sqlalchemy.dialects.sqlite.pysqlite import SQLiteDialect_pysqlite
+
+    class Shrink(SQLiteDialect_pysqlite):
+        max_identifier_length = class_limit
+        max_index_name_length = max_index
+        max_constraint_name_length = max_constraint
+        supports_statement_cache = True
+        server_limit = None
+
+        def _check_max_identifier_length(self, connection):
+            return self.server_limit
+
+    Shrink.server_limit = server_limit
+    kw = {}
+    if label_length is not None:
+        kw["label_length"] = label_length
+    if user_max is not None:
+        kw["max_identifier_length"] = user_max
+    return Shrink, kw
+
+
+def real_life(class_limit, user_max, label_length, max_index, max_constraint, ops):
+    """drive ONE real dialect object (and its long-lived identifier_preparer) through the ops;
+    connect = DefaultDialect.initialize() on a real SQLite connection"""
+    from sqlalchemy import create_engine, exc
+    from sqlalchemy.pool import StaticPool
+    from sqlalchemy.sql.elements import conv, _truncated_label
+
+    cls, kw = shrinking_dialect(class_limit, None, label_length, max_index, max_constraint, user_max)
+    d = cls(dbapi=cls.import_dbapi(), **kw)
+    p = d.identifier_preparer
+    out = []
+    plain = create_engine("sqlite://", poolclass=StaticPool)
+    try:
+        with plain.connect() as c:
+            for op in ops:
+                if op[0] == "c":
+                    d.server_limit = op[1]
+                    try:
+                        d.initialize(c)
+                        out.append("connected")
+                    except exc.ArgumentError:
+                        out.append("argumenterror")
+                elif op[0] in ("i", "k"):
+                    fn = p.truncate_and_render_index_name if op[0] == "i" else p.truncate_and_render_constraint_name
+                    try:
+                        out.append(E(fn(conv(op[2]) if op[1] else op[2], _alembic_quote=False)))
+                    except exc.IdentifierError:
+                        out.append("identifiererror")
+                else:
+                    comp = d.statement_compiler(d, None)
+                    out.append(E(comp._truncated_identifier("colident", _truncated_label(op[1]))))
+    finally:
+        plain.dispose()
+    return out, d
+
+
+def life_oracle(ops, outs, max_index=None, max_constraint=None):
+    """every name emitted after a successful connect is within the limit the server reported
+    (index and constraint paths alike); returns [(key, detail)]"""
+    probs, limit, armed = [], None, False
+    for op, o in zip(ops, outs):
+        if op[0] == "c":
+            armed = o == "connected"
+            if op[1]:
+                limit = op[1]
+            continue
+        if not armed or limit is None or not o.startswith("s:"):
+            continue
+        n = 0 if o == "s:" else len(o[2:].split("."))
+        explicit = op[0] in ("i", "k") and not op[1]
+        # a dialect's own index / constraint limit, where it declares one, takes precedence
+        lim = (max_index or limit) if op[0] == "i" else (max_constraint or limit) if op[0] == "k" else limit
+        if n > lim and not explicit and lim >= 8:
+            limit_, limit = limit, lim
+            what = {"i": "index name", "k": "constraint name", "l": "label"}[op[0]]
+            probs.append(("name-exceeds-limit-reported-at-connect:" + op[0], "%s of %d characters emitted while the limit is %d" % (what, n, lim)))
+            limit = limit_
+    return probs
+
+
+def engine_lifecycle_case(class_limit, server_limit, label_length, name_len):
+    """the same through a real Engine: format before the first connect, connect, format again"""
+    from sqlalchemy import create_engine, MetaData, Table, Column, Integer, Index, UniqueConstraint, select, exc
+    from sqlalchemy.dialects import registry
+    from sqlalchemy.pool import StaticPool
+    from sqlalchemy.schema import CreateIndex, CreateTable
+
+    cls, kw = shrinking_dialect(class_limit, server_limit, label_length)
+    cls.driver = "shrinkverif"
+    cls.name = "sqlite"
+    registry.impls["sqlite.shrinkverif"] = lambda: cls
+    probs = []
+    e = create_engine("sqlite+shrinkverif://", poolclass=StaticPool, **kw)
+    try:
+        m = MetaData(naming_convention={"ix": "ix_%(table_name)s_%(column_0_N_name)s", "uq": "uq_%(table_name)s_%(column_0_N_name)s"})
+        t = Table("t" + "a" * (name_len // 2), m, Column("c" + "b" * (name_len // 2), Integer), Column("d", Integer))
+        ix = Index(None, t.c[0])
+        uq = UniqueConstraint(t.c[0])
+        t.append_constraint(uq)
+        p = e.dialect.identifier_preparer
+
+        def names():
+            out = {}
+            for k, c in (("index", ix), ("constraint", uq)):
+                try:
+                    out[k] = unquote(e.dialect, p.format_constraint(c))
+                except exc.IdentifierError:
+                    out[k] = None
+            try:
+                st = select(t.alias()).set_label_style(__import__("sqlalchemy").LABEL_STYLE_TABLENAME_PLUS_COL)
+                comp = st.compile(e)
+                out["labels"] = [x[0] for x in comp._result_columns] + re.findall(r" AS (\S+?)[, \n]", str(comp).split("FROM", 1)[1] + " ")
+            except Exception as ex:  # noqa: BLE001
+                out["labels"] = []
+                out["compile_error"] = type(ex).__name__
+            return out
+
+        before = names()
+        try:
+            with e.connect() as c:
+                c.exec_driver_sql("select 1")
+            connected = True
+        except exc.ArgumentError:
+            connected = False
+        if connected:
+            after = names()
+            lim = server_limit or class_limit
+            if lim >= 8:
+                for k in ("index", "constraint"):
+                    if after[k] is not None and len(after[k]) > lim:
+                        probs.append(("name-exceeds-limit-reported-at-connect:" + k[0], "%s name %r (%d) after connect, server limit %d (formatted before connect: %r)" % (k, after[k], len(after[k]), lim, before[k])))
+                for n in after["labels"]:
+                    if len(n) > lim:
+                        probs.append(("name-exceeds-limit-reported-at-connect:l", "label/alias %r (%d) after connect, server limit %d, label_length %r" % (n, len(n), lim, label_length)))
+                        break
+                if (after["index"] is None) != (after["constraint"] is None) or (after["index"] and after["constraint"] and (len(after["index"]) > lim) != (len(after["constraint"]) > lim)):
+                    probs.append(("index-and-constraint-name-paths-disagree", "index %r constraint %r" % (after["index"], after["constraint"])))
+        elif not (label_length and label_length > (server_limit or class_limit)):
+            probs.append(("connect-refused-without-cause", "ArgumentError with label_length %r, limits %r/%r" % (label_length, class_limit, server_limit)))
+    finally:
+        e.dispose()
+    return probs
 
 
 # ------------------------------------------------------------------ oracles
@@ -503,6 +652,47 @@ def run(ctx, deep=False):
                                                  ",".join("%s~%s" % (E(n), E(k)) for n, k in cols) if cols else "-", E(reft), EL(refcols) if kind == "fk" else "-"))
         ctx.case(("conv", kind, tmpl, cols, cname))
         ctx.count("conv:" + (r[0] if r[0] != "ok" else "expanded"))
+    # ---- engine lifecycle: limits change at connect
+    life_cases = []
+    for _ in range(250 if not thorough else 2500):
+        class_limit = rng.choice([30, 63, 128, 255])
+        user_max = rng.choice([None, None, None, 20, 64])
+        label_length = rng.choice([None, None, 6, 10, 20, 29, 30, 31, 40, 64, 100])
+        max_index = rng.choice([None, None, 0, 16, 64])
+        max_constraint = rng.choice([None, None, 0, 16, 64])
+        ops = []
+        for _ in range(rng.randint(2, 9)):
+            k = rng.random()
+            if k < 0.3:
+                ops.append(("c", rng.choice([None, 0, 8, 20, 30, 30, 63, 128])))
+            elif k < 0.75:
+                nm = rng.choice(["ix_", "uq_", "x"]) + "".join(rng.choice(WORD) for _ in range(rng.choice([3, 20, 40, 61, 90, 140])))
+                ops.append((rng.choice("ik"), rng.random() < 0.75, nm))
+            else:
+                ops.append(("l", "lbl" + "".join(rng.choice(WORD) for _ in range(rng.choice([2, 10, 25, 38, 60])))))
+        try:
+            outs, dd = real_life(class_limit, user_max, label_length, max_index, max_constraint, ops)
+        except Exception as ex:  # noqa: BLE001
+            ctx.violation("dialect-lifecycle-crashes", {"kind": "life", "class_limit": class_limit, "user_max": user_max, "label_length": label_length, "max_index": max_index, "max_constraint": max_constraint, "ops": ops}, "%s: %s" % (type(ex).__name__, ex))
+            continue
+        case = {"op": "life", "class_limit": class_limit, "user_max": user_max, "label_length": label_length, "max_index": max_index, "max_constraint": max_constraint, "ops": ops}
+        life_cases.append((case, outs))
+        enc = []
+        for op in ops:
+            if op[0] == "c":
+                enc.append("c:%s" % ("N" if op[1] is None else op[1]))
+            elif op[0] in "ik":
+                enc.append("%s:%s:%s" % (op[0], "T" if op[1] else "F", E(op[2])))
+            else:
+                enc.append("l:%s" % E(op[1]))
+        # md5 is uninterpreted in the model: one digest per line, so lines use a single conv name
+        names = {op[2] for op in ops if op[0] in "ik" and op[1]}
+        if len(names) <= 1:
+            nm = next(iter(names), "")
+            opt = lambda v: "N" if v is None else str(v)  # noqa: E731
+            add(case, "|".join(outs), "naming life %d %s %s %s %s %s %s" % (user_max or class_limit, "T" if user_max else "F", opt(label_length), opt(max_index), opt(max_constraint), E(md5_hex(nm)), ",".join(enc)))
+        ctx.case(("life", class_limit, user_max, label_length, ops))
+        ctx.count("life:ops")
     if ctx.driver_ok():
         mo = ctx.driver(req)
         by = {}
@@ -526,6 +716,18 @@ def run(ctx, deep=False):
             seen[(cls, r)] = n
             if c_["ll"] >= 6 and len(r[2:].split(".")) > c_["ll"] and r != "s:":
                 ctx.violation("truncated-name-exceeds-label-length", {"kind": "idents", "ll": c_["ll"], "reqs": c_["reqs"]}, "%s longer than %d" % (r, c_["ll"]))
+    # ---- lifecycle oracle on the real dialect objects, then through a real Engine
+    for case, outs in life_cases:
+        if case["user_max"]:
+            continue  # a user-defined limit overrides what the server reports
+        for key, detail in life_oracle(case["ops"], outs, case["max_index"], case["max_constraint"]):
+            ctx.violation(key, dict(case, kind="life"), detail)
+    for class_limit, server_limit, label_length, name_len in [(128, 30, 40, 50), (128, 30, None, 50), (128, 30, 20, 50), (128, 30, 30, 50), (128, 30, 31, 50),
+                                                             (128, None, 100, 50), (63, 30, 64, 40), (128, 30, None, 120)] + \
+            [(rng.choice([63, 128]), rng.choice([None, 20, 30]), rng.choice([None, 10, 25, 31, 40, 70]), rng.choice([10, 50, 90])) for _ in range(10 if not thorough else 100)]:
+        ctx.case(("engine-life", class_limit, server_limit, label_length, name_len))
+        for key, detail in engine_lifecycle_case(class_limit, server_limit, label_length, name_len):
+            ctx.violation(key, {"kind": "engine-life", "class_limit": class_limit, "server_limit": server_limit, "label_length": label_length, "name_len": name_len}, detail)
     # ---- DDL and statements
     ddl_oracle(ctx, rng, thorough)
     for _ in range(120 if not thorough else 1500):
@@ -548,6 +750,16 @@ def search(ctx, broken):
 
 def replay(ctx, obj):
     c = obj["case"]
+    if c["kind"] == "engine-life":
+        probs = engine_lifecycle_case(c["class_limit"], c["server_limit"], c["label_length"], c["name_len"])
+        print("replay C21 engine lifecycle %r -> %r" % (c, probs))
+        return bool(probs)
+    if c["kind"] == "life":
+        ops = [tuple(o) for o in c["ops"]]
+        outs, _ = real_life(c["class_limit"], c["user_max"], c["label_length"], c["max_index"], c["max_constraint"], ops)
+        probs = life_oracle(ops, outs, c["max_index"], c["max_constraint"])
+        print("replay C21 dialect lifecycle %r -> %r -> %r" % (ops, outs, probs))
+        return bool(probs)
     if c["kind"] == "anon":
         names = anon_collision_probe()
         print("replay C21 select(t.c.anon_1, t.c.x + 1) -> result columns %r" % (names,))
